@@ -98,8 +98,9 @@ def _exec_case(mod, case):
             res = {"states": 1, "transitions": 1, "nontrivial": True,
                    "outcome": "unexpected-exception",
                    "viol": [{"oracle": "unexpected-exception",
-                             "key": {"site": case.get("kind", "?"),
-                                     "when": "library raised " + type(root).__name__},
+                             "key": (mod.exc_key(case, root) if hasattr(mod, "exc_key") else
+                                     {"site": case.get("kind", "?"),
+                                      "when": "library raised " + type(root).__name__}),
                              "detail": msg[-600:] + " | root: " + repr(root)[:300]}]}
         else:
             raise
